@@ -344,6 +344,30 @@ seed("C20.R4.store-gets-other-timer", "C20", "C20.R4:main", "store reads a timer
 seed("C20.R4.tick-adds-nothing", "C20", "C20.R4:timer:add_second", "add_second adds 0",
      (TIMER, "        self.seconds.fetch_add(1, Ordering::Release);", "        self.seconds.fetch_add(0, Ordering::Release);"))
 
+# ---------------------------------------------------------------- found by the mechanical mutation campaign (tools/mutate.py)
+seed("M.get-body-len-value-u16", 'C11', 'C11.R2:', 'a get response announces value.len() truncated to u16',
+     ('memcrs/src/memcache_server/handler.rs', '            record.value.len() as u32 + EXTRAS_LENGTH as u32 + key.len() as u32;', '            record.value.len() as u16 as u32 + EXTRAS_LENGTH as u32 + key.len() as u32;'))
+seed("M.skip-u16", 'C13', 'C13.R3:conservation', 'the skip count is truncated to u16',
+     ('memcrs/src/protocol/binary_connection.rs', '                        let skip = (body_length - buffered) as u32;', '                        let skip = (body_length - buffered) as u16 as u32;'))
+seed("M.item-limit-u16", 'C13', 'C13.R4:runtime_builder', 'the configured item size limit is truncated to u16 in one builder',
+     ('memcrs/src/memcache_server/runtime_builder.rs', '        config.item_size_limit.as_u64() as u32,\n        config.backlog_limit,\n    );\n\n    let core_ids', '        config.item_size_limit.as_u64() as u16 as u32,\n        config.backlog_limit,\n    );\n\n    let core_ids'))
+seed("M.expiry-witness-cas-ne", 'C03', 'C03.R1:', 'expiry collection goes ahead when the stored cas differs from the judged one',
+     ('memcrs/src/memory_store/store.rs', '            stored.header.cas == record.header.cas\n', '            stored.header.cas != record.header.cas\n'))
+seed("M.pred-init-1", 'C14', 'C14.R2:sweep:predicate-picks-the-drawn-entry', "the sweep's visit counter starts at 1",
+     ('memcrs/src/memcache/random_policy.rs', '            let mut number_of_calls: usize = 0;', '            let mut number_of_calls: usize = 1;'))
+seed("M.pred-ne-to-eq", 'C14', 'C14.R2:sweep:predicate-picks-the-drawn-entry', "the sweep's predicate accepts everything but the drawn entry",
+     ('memcrs/src/memcache/random_policy.rs', '                    if number_of_calls != item {', '                    if number_of_calls == item {'))
+seed("M.pred-step-2", 'C14', 'C14.R2:sweep:predicate-picks-the-drawn-entry', "the sweep's visit counter advances by 2",
+     ('memcrs/src/memcache/random_policy.rs', '                    if number_of_calls != item {\n                        number_of_calls += 1;', '                    if number_of_calls != item {\n                        number_of_calls += 2;'))
+seed("M.enc-key-polarity", 'C11', 'C11.R2:encode_message', 'the encoder writes the key only when it is empty',
+     ('memcrs/src/protocol/binary_codec.rs', '                if !response.key.is_empty() {\n                    dst.put_slice(&response.key[..]);', '                if response.key.is_empty() {\n                    dst.put_slice(&response.key[..]);'))
+seed("M.enc-key-dropped", 'C11', 'C11.R2:encode_message', 'the encoder never writes the key',
+     ('memcrs/src/protocol/binary_codec.rs', '                if !response.key.is_empty() {\n                    dst.put_slice(&response.key[..]);\n                }', '                if !response.key.is_empty() {\n                }'))
+seed("M.skip-counter-init-1", 'C13', 'C13.R3:skip_bytes:counter-is-bytes-read', "the discard loop's counter starts at 1",
+     ('memcrs/src/protocol/binary_connection.rs', '        let mut bytes_counter: usize = 0;', '        let mut bytes_counter: usize = 1;'))
+seed("M.skip-eof-is-1", 'C13', 'C13.R3:skip_bytes:eof-test', 'the discard loop treats a 1-byte read as end of stream',
+     ('memcrs/src/protocol/binary_connection.rs', '            if bytes_read == 0 {', '            if bytes_read == 1 {'))
+
 # ---------------------------------------------------------------- neutral variants
 neutral("N.rename-local", "rename a local in MemoryStore::set",
         (STORE, "            let cas = self.get_cas_id();\n            record.header.cas = cas;", "            let fresh = self.get_cas_id();\n            let cas = fresh;\n            record.header.cas = cas;"))
@@ -412,6 +436,8 @@ neutral("N.decr-fetch-update-wrapping", 'usage decrement as fetch_update(|v| Som
         ('memcrs/src/memcache/random_policy.rs', '        self.memory_usage\n            .fetch_sub(value, atomic::Ordering::Release)', '        self.memory_usage\n            .fetch_update(atomic::Ordering::Release, atomic::Ordering::Relaxed, |v| Some(v.wrapping_sub(value)))\n            .unwrap_or_else(|v| v)'))
 neutral("N.decr-fetch-add-neg", 'usage decrement as fetch_add(n.wrapping_neg())',
         ('memcrs/src/memcache/random_policy.rs', '        self.memory_usage\n            .fetch_sub(value, atomic::Ordering::Release)', '        self.memory_usage\n            .fetch_add(value.wrapping_neg(), atomic::Ordering::Release)'))
+neutral("N.get-body-len-key-u16", "key.len() as u16 as u32 in the hit response length (a key is at most 250 bytes)",
+        ('memcrs/src/memcache_server/handler.rs', '            record.value.len() as u32 + EXTRAS_LENGTH as u32 + key.len() as u32;', '            record.value.len() as u32 + EXTRAS_LENGTH as u32 + key.len() as u16 as u32;'))
 neutral("N.request-valid-reordered", "request_valid tests in another order and with <=",
         (CODEC, "        if self.header.extras_length > 20 {\n            return false;\n        }\n\n        if self.header.key_length > 250 {\n            return false;\n        }", "        if self.header.key_length >= 251 {\n            return false;\n        }\n\n        if !(self.header.extras_length <= 20) {\n            return false;\n        }"))
 neutral("N.handler-get-key-len-once", "hit response computes key length once",
